@@ -85,6 +85,7 @@ type frame struct {
 	vals    map[ssa.Value]*Val
 	prefix  string
 	lastResolvedAlloc *ssa.Alloc // set by resolveLocal when the name is an escaping scalar cell
+	afterOK map[int]func(string, *Term, *State) *Term // loop N then-assigns
 	entry   *Heap
 	out     map[*ssa.BasicBlock]*State
 	edge    map[[2]*ssa.BasicBlock]*Term
